@@ -634,6 +634,10 @@ pub struct C12Case {
     /// transport (the limit announced for this connection still holds)
     #[serde(default)]
     pub rerun_after_read_error: bool,
+    /// (with `previous`) the request is issued, and its future polled once, between the two
+    /// connections: it is the new connection's limit that decides
+    #[serde(default)]
+    pub issued_in_gap: bool,
 }
 
 pub struct C12;
@@ -645,6 +649,7 @@ fn c12_op() -> BoxedStrategy<OpSpec> {
         3 => 100usize..1000,
         2 => 1000usize..20_000,
         1 => 60_000usize..65_000,
+        1 => 66_000usize..72_000,
     ];
     (pad, 0u8..8, any::<u8>())
         .prop_map(|(pad, k, salt)| match k {
@@ -672,7 +677,7 @@ fn c12_op() -> BoxedStrategy<OpSpec> {
 
 const C12_R: u16 = 2;
 
-fn c12_world(m: Option<u32>, client_max: Option<u32>, prologue: u8, previous: Option<(u32, u8)>, rerun: bool) -> Result<World, String> {
+fn c12_world(m: Option<u32>, client_max: Option<u32>, prologue: u8, previous: Option<(u32, u8)>, rerun: bool, early: Option<&OpSpec>) -> Result<(World, Option<usize>), String> {
     let mut w = World::new();
     let connack = rc::Connack { maximum_packet_size: m, receive_maximum: Some(C12_R), ..Default::default() };
     let mut spec = ConnectSpec { maximum_packet_size: client_max, ..Default::default() };
@@ -698,6 +703,14 @@ fn c12_world(m: Option<u32>, client_max: Option<u32>, prologue: u8, previous: Op
         }
         spec.clean_start = Some(how != 2);
     }
+    let mut early_idx = None;
+    if let (Some(op), Some(_)) = (early, previous) {
+        w.tick();
+        if let Some(i) = w.start_op(0, op.clone()) {
+            w.poll_op(i);
+            early_idx = Some(i);
+        }
+    }
     connect_and_run_v(&mut w, spec, &connack, &WritePlan::default(), prologue)?;
     if rerun {
         let plan = WritePlan::default();
@@ -713,7 +726,7 @@ fn c12_world(m: Option<u32>, client_max: Option<u32>, prologue: u8, previous: Op
         }
         settle(&mut w, &plan, false);
     }
-    Ok(w)
+    Ok((w, early_idx))
 }
 
 impl Property for C12 {
@@ -733,7 +746,7 @@ impl Property for C12 {
                 1 => Just(MChoice::Absent),
             ],
         )
-            .prop_map(|(op, m)| C12Case { op, m, client_max: None, history: None, prologue: 0, previous: None, rerun_after_read_error: false })
+            .prop_map(|(op, m)| C12Case { op, m, client_max: None, history: None, prologue: 0, previous: None, rerun_after_read_error: false, issued_in_gap: false })
             .boxed();
         let single = (s, prop_oneof![2 => Just(None), 1 => (8u32..64).prop_map(Some), 1 => Just(Some(1u32))], prologue_variant())
             .prop_map(|(mut c, cm, pv)| {
@@ -754,6 +767,12 @@ impl Property for C12 {
                 c
             })
             .boxed();
+        let single = (single, any::<bool>())
+            .prop_map(|(mut c, g)| {
+                c.issued_in_gap = g;
+                c
+            })
+            .boxed();
         // histories: requests of every kind (multi-filter subscribes / unsubscribes are the long
         // ones), acknowledgements, cancellations; M between 12 and 44, R small
         use super::simprops::{ack, deco, rm_small, start};
@@ -770,6 +789,7 @@ impl Property for C12 {
                 prologue: 0,
                 previous: None,
                 rerun_after_read_error: false,
+                issued_in_gap: false,
                 history: Some(Scenario { receive_max, max_packet_size: Some(m), id_offset, prologue, events }),
             });
         prop_oneof![3 => single, 1 => hist].boxed()
@@ -799,7 +819,7 @@ impl Property for C12 {
         }
         let plan = WritePlan::default();
         // (1) measure L
-        let mut a = match c12_world(None, None, 0, None, false) {
+        let mut a = match c12_world(None, None, 0, None, false, None).map(|x| x.0) {
             Ok(w) => w,
             Err(e) => return Outcome::fail("HARNESS/prologue", e),
         };
@@ -832,13 +852,25 @@ impl Property for C12 {
         o.class(case.op.kind());
         o.class(format!("L-{}", match l { 0..=127 => "<=127", 128..=16383 => "<=16383", _ => ">16383" }));
         // (2) the same request under M
-        let mut w = match c12_world(m, case.client_max, case.prologue, case.previous, case.rerun_after_read_error) {
+        let early = (case.issued_in_gap && case.previous.is_some() && !case.rerun_after_read_error).then_some(&case.op);
+        let (mut w, early_idx) = match c12_world(m, case.client_max, case.prologue & 63, case.previous, case.rerun_after_read_error, early) {
             Ok(w) => w,
             Err(e) => return Outcome::fail("HARNESS/prologue", e),
         };
-        let off = w.wire_len();
-        w.tick();
-        let op = w.start_op(0, case.op.clone()).unwrap();
+        let (off, op) = match early_idx {
+            Some(i) => {
+                o.class("request-issued-between-two-connections");
+                // it was served when run() started: everything behind the handshake packets
+                w.sync_wire();
+                let hs = w.pkts.iter().take_while(|p| matches!(&p.decoded, Ok(rc::Packet::Connect(_)) | Ok(rc::Packet::Auth(_)))).last().map(|p| p.end).unwrap_or(0);
+                (hs, i)
+            }
+            None => {
+                let off = w.wire_len();
+                w.tick();
+                (off, w.start_op(0, case.op.clone()).unwrap())
+            }
+        };
         settle(&mut w, &plan, false);
         if let Some(p) = first_panic(&w) {
             return Outcome { fail: Some(Failure { sig: format!("PANIC/{}", panic_sig(&p)), msg: p }), ..o };
